@@ -315,13 +315,19 @@ class C06(Prop):
         if modular:
             from rtverif.props.c09 import modular_sd
             sd.update(modular_sd(modular, names))
+        # a quarter of the interface-aware runs use the dedicated offline-only / online-only class of the semantics
+        # (rtamt.spec.iastl.*: IAStlInputVacuityDiscreteTimeOnlineSpecification, ...) instead of `semantics=`
+        ded = sem != 'standard' and kind in ('dt_off', 'dt_on', 'ct_off', 'ct_on') and not modular and \
+            (len(text) + len(names)) % 4 == 0
+        if ded:
+            self._dedicated = getattr(self, '_dedicated', 0) + 1
         if kind == 'dt_off':
-            return drive.values(drive.Mon('dt', sd).evaluate(drive.dt_dataset(data)))
+            return drive.values(drive.Mon('dt_off' if ded else 'dt', sd).evaluate(drive.dt_dataset(data)))
         if kind in ('dt_on', 'dt_on_pastified'):
-            m = drive.Mon('dt', sd, pastify=kind.endswith('pastified'))
+            m = drive.Mon('dt_on' if ded else 'dt', sd, pastify=kind.endswith('pastified'))
             n = len(data[names[0]])
             return [m.update(i, [(k, data[k][i]) for k in names]) for i in range(n)]
-        m = drive.Mon('ct', sd, pastify=kind.endswith('pastified'))
+        m = drive.Mon(kind if ded else 'ct', sd, pastify=kind.endswith('pastified'))
         if kind == 'ct_off':
             return m.evaluate(*drive.ct_args(sig, names))
         n = len(sig[names[0]])
@@ -367,6 +373,7 @@ class C06(Prop):
                 v.info['class:modular'] = 1
             if case.get('long'):
                 v.info['class:long-batches'] = 1
+            d0 = getattr(self, '_dedicated', 0)
             got = self.run_real(kind, text, names, sem, io, data=None if dense else data, sig=sig if dense else None,
                                 modular=case.get('modular'), cuts=case.get('cuts'))
         except Exception as e:
@@ -376,6 +383,8 @@ class C06(Prop):
             v.bad('raises:' + type(e).__name__, '%s [%s, %s, io=%s]: raised %s: %s' % (
                 text, kind, sem, io, type(e).__name__, e))
             return v
+        if getattr(self, '_dedicated', 0) > d0:
+            v.info['class:dedicated-ia-class'] = 1
         got_raw = got
         what = '%s [%s, %s, io=%s] on %s' % (text, kind, sem, io, case.get('data') or case.get('signals'))
         if not dense:
